@@ -12,7 +12,8 @@ TECHNIQUE = ("Coq proof (Hoare logic over the Client and pool models): with Base
              "any class escaping a socket phase leaves sock None and the pool invariant restored; handler classes extracted "
              "from source each run; models tied to the code by an exhaustive interruption-point differential run")
 LEVEL_TEXT = ("c10_fetch/store/misc: for every configuration, peer, script and recv behaviour, any exception (KeyboardInterrupt, "
-              "SystemExit, greenlet timeout, at any socket call) escaping the socket phase leaves self.sock = None, so the "
+              "SystemExit, greenlet timeout, at any socket call - before the call takes effect or, for sendall, after the kernel has "
+              "taken the bytes and the reply is on its way) escaping the socket phase leaves self.sock = None, so the "
               "interrupted connection is never read again; c10_pool_slot: after any PooledClient call nothing stays checked "
               "out; c10_src_handlers ties the hypotheses to the handler classes read from base.py/pool.py on this run.")
 LEVEL_NOTE = ("Trusted: Coq kernel; hand models' correspondence with base.py/pool.py (exhaustive: every operation x every socket "
@@ -53,7 +54,7 @@ def cases(ctx):
 
 
 def correspondence(ctx):
-    cl = cases(ctx)
+    cl = cases(ctx) + late_cases(ctx)[::3]
     hk = cs.handler_kinds()
     hp = cs.pool_handler_kind()
     reqs = []
@@ -78,7 +79,8 @@ def correspondence(ctx):
     return {"evaluations": len(cl) + len(pooled), "distinct_nontrivial": len(cl) + len(pooled),
             "rule": "extracted Client and PooledClient models vs the real classes (results, full socket traces, pool used/free "
                     "counts): 12 operations x 3 follow-up operations (twice) x 3 configurations x KeyboardInterrupt/SystemExit/"
-                    "greenlet timeout at EVERY non-recv socket call position 0..8 and at each of the first 3 recv calls; pooled "
+                    "greenlet timeout at EVERY non-recv socket call position 0..8 and at each of the first 3 recv calls, and raised inside "
+                    "sendall AFTER the bytes were taken (the reply will arrive); pooled "
                     "with max_pool_size 1 and 2; every case is non-trivial (one interruption)",
             "samples": [{"cfg": repr(c), "ops": repr(o)[:80], "script": repr(s), "choices": repr(h)} for c, o, s, h, r in cl[100:103]],
             "distribution": {"client_cases": len(cl), "pooled_cases": len(pooled)}, "exhaustive": True, "disagreements": dis}
